@@ -206,6 +206,7 @@ func (x *Exec) operand(st *State, fr *Frame, v ssa.Value) *Val {
 	case *ssa.Global:
 		name := v.Pkg.Pkg.Path() + "." + v.Name()
 		pt := v.Type().(*types.Pointer)
+		x.noteGlobal(name, pt.Elem())
 		return &Val{T: v.Type(), K: KPtr, S: tm(SInt, "(- %d)", 100000+x.globalID(name)), P: &Ptr{Kind: PGlobal, Glob: name, Root: pt.Elem(), Base: Tm{"0", SInt}}}
 	case *ssa.Builtin:
 		engineErr("builtin %s used as value", v.Name())
